@@ -6,6 +6,7 @@ package main
 import (
 	"context"
 	"encoding/json"
+	"errors"
 	"fmt"
 	"runtime"
 	"sort"
@@ -204,7 +205,7 @@ func (s *semaScenario) Exec(run func(threads ...func()) *verifsched.Exec) (out e
 	ctxs := make([]context.Context, len(s.Rounds))
 	cancels := make([]context.CancelFunc, len(s.Rounds))
 	for i := range s.Rounds {
-		ctxs[i], cancels[i] = context.WithCancel(context.Background())
+		ctxs[i], cancels[i] = cancelWithCause()
 	}
 
 	defer func() {
@@ -301,7 +302,7 @@ func (s *semaSeqScenario) Exec(run func(threads ...func()) *verifsched.Exec) (ou
 			}
 		}
 
-		ctx, cancel := context.WithCancel(context.Background())
+		ctx, cancel := cancelWithCause()
 		cancel()
 		err := sem.Acquire(ctx)
 		events = append(events, fmt.Sprintf("extra=%v", err))
@@ -398,13 +399,24 @@ func (s *semaReleaseScenario) Exec(run func(threads ...func()) *verifsched.Exec)
 		}
 	}
 
-	ctx, cancel := context.WithCancel(context.Background())
+	ctx, cancel := cancelWithCause()
 	cancel()
 	if err := sem.Acquire(ctx); err == nil {
 		out.Viols = append(out.Viols, e3.Viol{Kind: "holders-exceed-capacity", What: "one more Acquire succeeded than there are free slots"})
 	}
 
 	return out
+}
+
+// errCause is what the contexts of the scenarios are cancelled with: the
+// context's error stays context.Canceled, its cause is this one.  Acquire
+// returns the context's error.
+var errCause = errors.New("custom cancellation cause")
+
+func cancelWithCause() (ctx context.Context, cancel context.CancelFunc) {
+	ctx, cc := context.WithCancelCause(context.Background())
+
+	return ctx, func() { cc(errCause) }
 }
 
 // ---- enumeration ----
